@@ -100,6 +100,25 @@ Theorem C16_fit_dlc_smallest_fd_length :
 Proof. exact fit_dlc_smallest_fd_length. Qed.
 Print Assumptions C16_fit_dlc_smallest_fd_length.
 
+(* matrix level (CanMatrix.recalc_dlc, any strategy, any number of frames in any order): the new size of a frame is
+   what the strategy gives for that frame alone - no frame before or after it matters *)
+Theorem C16_recalc_dlc_frame_by_frame :
+  forall strategy before f sigs after,
+    let r := recalc_dlc strategy (before ++ (f, sigs) :: after) in
+    length r = length (before ++ (f, sigs) :: after) /\
+    nth (length before) r 0 = recalc_frame strategy f sigs /\
+    r = recalc_dlc strategy before ++ recalc_dlc strategy [(f, sigs)] ++ recalc_dlc strategy after.
+Proof. exact recalc_dlc_frame_by_frame. Qed.
+Print Assumptions C16_recalc_dlc_frame_by_frame.
+
+Theorem C16_set_fd_types_frame_by_frame :
+  forall before f fd after,
+    let r := set_fd_types (before ++ (f, fd) :: after) in
+    length r = length (before ++ (f, fd) :: after) /\
+    nth (length before) r false = (fd || (8 <? f)).
+Proof. exact set_fd_types_frame_by_frame. Qed.
+Print Assumptions C16_set_fd_types_frame_by_frame.
+
 Theorem C16_set_fd_type_spec :
   forall f is_fd, set_fd_type f is_fd = (is_fd || (8 <? f)).
 Proof. exact set_fd_type_spec. Qed.
